@@ -1996,7 +1996,14 @@ class _operator(object):
             assert self.unary
             return self.impl(l)
         if self.unsigned:
-            l.sf = r.sf = False
+            # operands may be shared (registers, parts of other expressions):
+            # read them unsigned through a copy rather than re-flagging them
+            if l.sf:
+                l = _copy(l)
+                l.sf = False
+            if r.sf:
+                r = _copy(r)
+                r.sf = False
         return self.impl(l, r)
 
     def __mul__(self, op):
